@@ -62,7 +62,8 @@ def main(tier):
                 broken = r.sample(BROKEN_FILES, r.randint(0, 2)) if r.random() < 0.5 else []
                 ignored = r.sample(IGNORED_FILES, r.randint(0, 1))
                 docs = list(clean)
-                inline = other + bad
+                pair = list(bad) if len(bad) == 2 and r.random() < 0.6 else []      # two malformed documents in ONE file: both must be reported
+                inline = other + ([] if pair else bad)
                 r.shuffle(inline)
                 separate = []
                 for d in inline:
@@ -80,6 +81,9 @@ def main(tier):
                 for si, d in enumerate(separate):
                     with open(os.path.join(djunk, 'zsep%d.yaml' % si), 'w') as f:
                         f.write(json.dumps(d, indent=1) + '\n')
+                if pair:
+                    with open(os.path.join(djunk, 'zpair.yaml'), 'w') as f:
+                        f.write('\n'.join('---\n' + json.dumps(d, indent=1) for d in pair) + '\n')
                 for name, text in broken + ignored:
                     sub = os.path.join(djunk, 'sub') if r.random() < 0.3 else djunk
                     os.makedirs(sub, exist_ok=True)
